@@ -105,18 +105,13 @@ Example int_guard_nonvacuous :
 Proof. cbv zeta. split; [|split]; vm_compute; reflexivity. Qed.
 
 (* int_datatype: the value lies in the value space of the chosen XSD type *)
-Definition xsd_int_range (name : str) (z : Z) : bool :=
-  if str_eqb name [83;72;79;82;84] then ((-32768 <=? z) && (z <=? 32767))%Z
-  else if str_eqb name [73;78;84] then ((-2147483648 <=? z) && (z <=? 2147483647))%Z
-  else if str_eqb name [76;79;78;71] then ((-9223372036854775808 <=? z) && (z <=? 9223372036854775807))%Z
-  else str_eqb name [73;78;84;69;71;69;82].
+Definition xsd_int_range := xsd_integer_type_contains.
 
 Lemma int_datatype_sound z : xsd_int_range (int_datatype z) z = true.
 Proof.
-  unfold int_datatype, int_datatype_rows. cbn [find fst snd].
-  repeat match goal with
-  | |- context [if ?c then _ else _] => let E := fresh "E" in destruct c eqn:E; cbn [snd];
-       [ try (vm_compute str_eqb; cbv iota; exact E) |]
-  end.
-  vm_compute. reflexivity.
+  unfold xsd_int_range, int_datatype.
+  destruct (find (fun r => ((fst (fst r) <=? z) && (z <=? snd (fst r)))%Z) int_datatype_rows) as [r|] eqn:F.
+  - apply find_some in F as [Hin Hr]. cbn in Hin.
+    destruct Hin as [<-|[<-|[<-|[]]]]; cbn [fst snd] in Hr |- *; exact Hr.
+  - vm_compute. reflexivity.
 Qed.
